@@ -70,7 +70,7 @@ J('Create.alloc_guard', 'h_rsd_create', ['C08', 'C18', 'C02'], defines=DEFS + ['
   unwind_reason='varint recursion <= 5 (+ scalar reads); every path ends at the allocation, no input-length loop is entered; unwinding assertions on', no_vacuity=True)
 J('Create.bounded', 'h_rsd_create', ['C08', 'C02'], defines=DEFS + ['-DCREATE_MAXBYTES=4'], unwind=66, solver='cadical',
   unwind_reason='bounded: at most 4 input bytes after the reader position (<= 3 table tokens, zero runs <= 64 symbols each); look-up table builder by contract',
-  replace=['RAnsDecoder_rans_build_look_up_table'], timeout=1500, cost=8, cbmc=['--object-bits', '10'])
+  replace=['RAnsDecoder_rans_build_look_up_table'], timeout=3000, cost=8, cbmc=['--object-bits', '10'], tier='thorough')
 J('DecodeRawSymbols.contract', 'h_enf_DecodeRawSymbols', ['C08', 'C05', 'C02'], enforce='DecodeRawSymbols', replace=['DecoderBuffer_Decode_u8', 'DecodeRawSymbolsInternal_b'], cbmc=['--object-bits', '10'])
 J('DecodeSymbols.contract', 'h_enf_DecodeSymbols', ['C08', 'C05', 'C02'], enforce='DecodeSymbols', replace=['DecoderBuffer_Decode_u8', 'DecodeRawSymbols', 'DecodeTaggedSymbols_stub'])
 ASSUMPTIONS = ['RAnsSymbolDecoder<B> is instantiated through -DRANS_P = ComputeRAnsPrecisionFromUniqueSymbolsBitLength(B) (the function itself is under contract and pinned to the frozen table)',
